@@ -282,6 +282,76 @@ theorem src_tie_should_gc (s : Src.ItemStash.ItemStash) (ht : Src.ItemStash.Item
 example : Src.ItemStash.ItemStash.typed ⟨⟨1048576, 4096, 4096, 1⟩, ⟨12⟩, 20000, 15000⟩ = true ∧
     (4096 : Int) ≤ 1048576 := by decide
 
+/-! #### index/relations_map.hpp: `kv_pair`, the 32-bit guards (fix 9f963df) -/
+
+/-- `kv_pair::operator<` (`std::tie(key, value) < std::tie(other.key, other.value)`) of the 32-bit map = `RelMap.kvLt` -/
+theorem src_tie_kv_pair_lt_32 (a b : Src.RelationsMap.flat_map_u64_u32_u64_u32.kv_pair)
+    (ha : Src.RelationsMap.flat_map_u64_u32_u64_u32.kv_pair.typed a = true)
+    (hb : Src.RelationsMap.flat_map_u64_u32_u64_u32.kv_pair.typed b = true) :
+    Src.RelationsMap.flat_map_u64_u32_u64_u32.kv_pair.op_lt_kv_pair a b
+      = RelMap.kvLt (a.key.toNat, a.value.toNat) (b.key.toNat, b.value.toNat) := by
+  simp only [Src.RelationsMap.flat_map_u64_u32_u64_u32.kv_pair.typed, Bool.and_eq_true, inU_iff] at ha hb
+  rw [Bool.eq_iff_iff]
+  by_cases h1 : a.key < b.key <;> by_cases h2 : b.key < a.key <;> by_cases h3 : a.value < b.value <;>
+    simp [Src.RelationsMap.flat_map_u64_u32_u64_u32.kv_pair.op_lt_kv_pair, RelMap.kvLt, *] <;> omega
+
+/-- the same for the 64-bit map -/
+theorem src_tie_kv_pair_lt_64 (a b : Src.RelationsMap.flat_map_u64_u64_u64_u64.kv_pair)
+    (ha : Src.RelationsMap.flat_map_u64_u64_u64_u64.kv_pair.typed a = true)
+    (hb : Src.RelationsMap.flat_map_u64_u64_u64_u64.kv_pair.typed b = true) :
+    Src.RelationsMap.flat_map_u64_u64_u64_u64.kv_pair.op_lt_kv_pair a b
+      = RelMap.kvLt (a.key.toNat, a.value.toNat) (b.key.toNat, b.value.toNat) := by
+  simp only [Src.RelationsMap.flat_map_u64_u64_u64_u64.kv_pair.typed, Bool.and_eq_true, inU_iff] at ha hb
+  rw [Bool.eq_iff_iff]
+  by_cases h1 : a.key < b.key <;> by_cases h2 : b.key < a.key <;> by_cases h3 : a.value < b.value <;>
+    simp [Src.RelationsMap.flat_map_u64_u64_u64_u64.kv_pair.op_lt_kv_pair, RelMap.kvLt, *] <;> omega
+
+/-- `kv_pair::operator==` (what `std::unique` in `sort_unique()` uses) = equality of the model's pairs -/
+theorem src_tie_kv_pair_eq (a b : Src.RelationsMap.flat_map_u64_u32_u64_u32.kv_pair)
+    (a' b' : Src.RelationsMap.flat_map_u64_u64_u64_u64.kv_pair)
+    (ha : Src.RelationsMap.flat_map_u64_u32_u64_u32.kv_pair.typed a = true)
+    (hb : Src.RelationsMap.flat_map_u64_u32_u64_u32.kv_pair.typed b = true)
+    (ha' : Src.RelationsMap.flat_map_u64_u64_u64_u64.kv_pair.typed a' = true)
+    (hb' : Src.RelationsMap.flat_map_u64_u64_u64_u64.kv_pair.typed b' = true) :
+    Src.RelationsMap.flat_map_u64_u32_u64_u32.kv_pair.op_eq_kv_pair a b
+      = decide ((a.key.toNat, a.value.toNat) = (b.key.toNat, b.value.toNat)) ∧
+    Src.RelationsMap.flat_map_u64_u64_u64_u64.kv_pair.op_eq_kv_pair a' b'
+      = decide ((a'.key.toNat, a'.value.toNat) = (b'.key.toNat, b'.value.toNat)) := by
+  simp only [Src.RelationsMap.flat_map_u64_u32_u64_u32.kv_pair.typed, Src.RelationsMap.flat_map_u64_u64_u64_u64.kv_pair.typed,
+    Bool.and_eq_true, inU_iff] at ha hb ha' hb'
+  constructor <;> rw [Bool.eq_iff_iff] <;>
+    simp only [Src.RelationsMap.flat_map_u64_u32_u64_u32.kv_pair.op_eq_kv_pair, Src.RelationsMap.flat_map_u64_u64_u64_u64.kv_pair.op_eq_kv_pair,
+      Bool.and_eq_true, eq_iff, decide_eq_true_eq, Prod.mk.injEq] <;> omega
+
+/-- `kv_pair(key_id, value_id)`: the `static_cast`s to the internal types are the model's `cast iw`
+    (`FlatMap.set`), for both maps -/
+theorem src_tie_kv_pair_ctor (k v : Nat) (hk : k < 2 ^ 64) (hv : v < 2 ^ 64) :
+    Src.RelationsMap.flat_map_u64_u32_u64_u32.kv_pair.ctor_u64_u64 k v = ⟨(RelMap.cast 32 k : Nat), (RelMap.cast 32 v : Nat)⟩ ∧
+    Src.RelationsMap.flat_map_u64_u64_u64_u64.kv_pair.ctor_u64_u64 k v = ⟨(RelMap.cast 64 k : Nat), (RelMap.cast 64 v : Nat)⟩ := by
+  have e64 : ∀ n : Nat, n < 2 ^ 64 → RelMap.cast 64 n = n := fun n h => by simp [RelMap.cast, Nat.mod_eq_of_lt h]
+  refine ⟨?_, by rw [e64 k hk, e64 v hv]; rfl⟩
+  simp only [Src.RelationsMap.flat_map_u64_u32_u64_u32.kv_pair.ctor_u64_u64, wrapU, RelMap.cast]
+  congr 1 <;> simp
+
+/-- the guard of fix 9f963df in `RelationsMapIndex::for_each` (`id > numeric_limits<uint32_t>::max()` ⇒ nothing is
+    looked up in the 32-bit map) is the model's `id > max32` of `Index.forEach` -/
+theorem src_tie_for_each_guard (id : Nat) :
+    Src.RelationsMap.for_each_cond_id_above_32bit id = decide (id > RelMap.max32) := by
+  rw [Bool.eq_iff_iff]
+  refine Iff.trans ?_ decide_eq_true_iff.symm
+  simp only [Src.RelationsMap.for_each_cond_id_above_32bit, gt_iff, RelMap.max32]
+  omega
+
+/-- `RelationsMapStash::add`: `member_id <= max32 && relation_id <= max32` selects the 32-bit map exactly as `Stash.add` -/
+theorem src_tie_stash_add_cond (m r : Nat) :
+    Src.RelationsMap.add_cond_fits_32bit m r = (decide (m ≤ RelMap.max32) && decide (r ≤ RelMap.max32)) := by
+  rw [Bool.eq_iff_iff, Bool.and_eq_true]
+  refine Iff.trans ?_ (and_congr decide_eq_true_iff.symm decide_eq_true_iff.symm)
+  simp only [Src.RelationsMap.add_cond_fits_32bit, Src.RelationsMap.RelationsMapStash.add.max32, Bool.and_eq_true, le_iff, RelMap.max32]
+  omega
+
+example : Src.RelationsMap.flat_map_u64_u32_u64_u32.kv_pair.typed ⟨4294967295, 0⟩ = true := by decide
+
 end SrcTies
 
 end Osmium.C15
